@@ -225,6 +225,14 @@ def _state_agreement(chk: Check, repo: Repo, types: TypeEnv) -> None:
                             any(isinstance(x, ast.Name) and _base(x.id) == p
                                 for a0 in list(n0.args) + [k0.value for k0 in n0.keywords] for x in ast.walk(a0)):
                         stored = True
+                    elif isinstance(n0, ast.For) and any(isinstance(x, ast.Name) and _base(x.id) == p for x in ast.walk(n0.iter)):
+                        # for x in <param>: self.<attr>.add(x)
+                        tn0 = {t.id for t in ast.walk(n0.target) if isinstance(t, ast.Name)}
+                        if any(isinstance(c0, ast.Call) and isinstance(c0.func, ast.Attribute)
+                               and c0.func.attr in ("add", "append", "update", "extend", "__setitem__")
+                               and any(isinstance(x, ast.Name) and x.id in tn0 for a0 in c0.args for x in ast.walk(a0))
+                               for b0 in n0.body for c0 in ast.walk(b0)):
+                            stored = True
                 chk.ob("R01.1", "%s.%s:constructor-stores" % (cname, p), stored, init_k.loc(),
                        "%s.__init__ takes '%s' but never stores it: the attribute is missing or stale "
                        "on every constructed (and loaded) %s" % (cname, p, cname), 2)
